@@ -373,9 +373,12 @@ def report_bad(ctx, bad, sig_fn, desc_fn, replay_fn, confirm_fn, max_report=6):
     """Group rejected events by signature, confirm one representative per group from its replay object,
     then record it as violation or known finding."""
     groups = {}
+    where = {}
     for tr, i, ev in bad:
         sig = sig_fn(ev)
-        groups.setdefault(json.dumps(sig, sort_keys=True), []).append(ev)
+        k = json.dumps(sig, sort_keys=True)
+        groups.setdefault(k, []).append(ev)
+        where.setdefault(k, (tr, i))
     reported = 0
     for k, evs in groups.items():
         sig = json.loads(k)
@@ -385,11 +388,43 @@ def report_bad(ctx, bad, sig_fn, desc_fn, replay_fn, confirm_fn, max_report=6):
             if reported >= max_report:
                 continue
             if not confirm_fn(rep):
-                raise MachineryError("a rejected event did not reproduce from its replay object: %s" % json.dumps(rep)[:600])
+                # The event may depend on what the same driver PROCESS did before it (state left behind in the
+                # library: a cache, a pool, a table edited in place). Replay it with its history: the cases that
+                # preceded it in the same trace, in growing windows; reproduced = the LAST case is rejected again.
+                rep = _confirm_with_history(ctx, where[k], rep, replay_fn, confirm_fn)
+                if rep is None:
+                    raise MachineryError("a rejected event did not reproduce from its replay object (alone, or after the cases "
+                                         "that preceded it in its driver process): %s" % json.dumps(replay_fn(ev))[:600])
             reported += 1
         ctx.add_violation(desc_fn(ev) + (" (+%d more events with this signature)" % (len(evs) - 1) if len(evs) > 1 else ""),
                           sig, rep)
     return groups
+
+
+def _confirm_with_history(ctx, at, rep, replay_fn, confirm_fn):
+    tr, i = at
+    if "cases" not in rep or len(rep["cases"]) != 1:
+        return None
+    try:
+        evs = read_ndjson(tr)
+    except Exception:
+        return None
+    for window in (16, 128, 1024, len(evs)):
+        lo = max(0, i - window)
+        cases = []
+        for e in evs[lo:i]:
+            try:
+                r = replay_fn(e)
+            except Exception:
+                r = None
+            if r and len(r.get("cases") or []) == 1:
+                cases.append(r["cases"][0])
+        hist = dict(rep, cases=cases + rep["cases"], history=len(cases))
+        if confirm_fn(hist):
+            return hist
+        if lo == 0:
+            break
+    return None
 
 
 def confirm_by_cases(ctx, cmd, module, extra=None, cfg=None, extra_env=None, cfg_text=None):
@@ -406,7 +441,10 @@ def confirm_by_cases(ctx, cmd, module, extra=None, cfg=None, extra_env=None, cfg
             tr = cf + ".trace"
             ctx.drive([cmd, "-cases", cf, "-out", tr, "-seed", ctx.seed] + (rep.get("extra") or extra or []))
             n, bad, _ = ctx.tlc_trace(module, cfg or module, tr, label="confirm", extra_env=extra_env, cfg_text=cfg_text)
-            if bad:
+            if rep.get("history"):
+                if n in bad:          # with a history, the case under test is the last one
+                    return True
+            elif bad:
                 return True
         return False
     return fn
